@@ -9,7 +9,7 @@ use crate::hook;
 use crate::prng::mix64;
 use crate::tok::{SpanX, Tok};
 use crate::val::Val;
-use chumsky::input::{Checkpoint, Cursor, InputRef, MapExtra, ValueInput};
+use chumsky::input::{BorrowInput, Checkpoint, Cursor, ExactSizeInput, InputRef, MapExtra, SliceInput, ValueInput};
 use chumsky::inspector::Inspector;
 use chumsky::prelude::*;
 use chumsky::recursive::{Direct, Recursive};
@@ -195,8 +195,204 @@ macro_rules! nested_no {
     }};
 }
 
+// ---------------------------------------------------------------------------------------------
+// Capability-specific nodes: to_slice (SliceInput), any_ref / select_ref (BorrowInput),
+// span_from (ExactSizeInput). Each concrete input kind says which it supports.
+
+pub trait SliceX {
+    fn syms(&self) -> Vec<u8>;
+}
+impl SliceX for &[u8] {
+    fn syms(&self) -> Vec<u8> {
+        self.iter().map(|t| t.to_sym()).collect()
+    }
+}
+impl SliceX for &[char] {
+    fn syms(&self) -> Vec<u8> {
+        self.iter().map(|t| t.to_sym()).collect()
+    }
+}
+impl SliceX for &str {
+    fn syms(&self) -> Vec<u8> {
+        self.chars().map(|t| t.to_sym()).collect()
+    }
+}
+impl SliceX for bytes::Bytes {
+    fn syms(&self) -> Vec<u8> {
+        self.iter().map(|t| t.to_sym()).collect()
+    }
+}
+impl<S> SliceX for &[(u8, S)] {
+    fn syms(&self) -> Vec<u8> {
+        self.iter().map(|t| t.0.to_sym()).collect()
+    }
+}
+
+pub fn mk_slice<'a, I>(p: BP<'a, I>) -> BP<'a, I>
+where
+    I: ValueInput<'a> + SliceInput<'a>,
+    I::Slice: SliceX,
+    I::Token: Tok,
+    I::Span: SpanX,
+{
+    p.to_slice()
+        .map(|s: I::Slice| {
+            hook::cb();
+            Val::Seq(s.syms().into_iter().map(Val::Tok).collect())
+        })
+        .boxed()
+}
+
+pub fn mk_any_ref<'a, I>() -> BP<'a, I>
+where
+    I: ValueInput<'a> + BorrowInput<'a>,
+    I::Token: Tok,
+    I::Span: SpanX,
+{
+    chumsky::primitive::any_ref()
+        .map(|t: &'a I::Token| {
+            hook::cb();
+            Val::Tok(t.to_sym())
+        })
+        .boxed()
+}
+
+pub fn mk_select_ref<'a, I>(mask: u64) -> BP<'a, I>
+where
+    I: ValueInput<'a> + BorrowInput<'a>,
+    I::Token: Tok,
+    I::Span: SpanX,
+{
+    chumsky::primitive::select_ref(move |t: &'a I::Token, _e: &mut MapExtra<'a, '_, I, Ex<'a, I>>| {
+        hook::cb();
+        let s = t.to_sym();
+        if s < 64 && mask >> s & 1 == 1 {
+            Some(Val::Tok(s))
+        } else {
+            None
+        }
+    })
+    .boxed()
+}
+
+pub fn mk_span_from<'a, I>() -> BP<'a, I>
+where
+    I: ValueInput<'a> + ExactSizeInput<'a>,
+    I::Token: Tok,
+    I::Span: SpanX,
+{
+    custom(|inp: &mut InputRef<'a, '_, I, Ex<'a, I>>| {
+        hook::cb();
+        let c = inp.cursor();
+        Ok(Val::OnlySpan(inp.span_from(&c..).norm()))
+    })
+    .boxed()
+}
+
+pub trait Caps<'a>: ValueInput<'a> + Sized
+where
+    <Self as Input<'a>>::Token: Tok,
+    <Self as Input<'a>>::Span: SpanX,
+{
+    fn slice_of(_p: BP<'a, Self>) -> Option<BP<'a, Self>> {
+        None
+    }
+    fn any_ref() -> Option<BP<'a, Self>> {
+        None
+    }
+    fn select_ref(_mask: u64) -> Option<BP<'a, Self>> {
+        None
+    }
+    fn span_from_probe() -> Option<BP<'a, Self>> {
+        None
+    }
+}
+
+macro_rules! cap_fns {
+    (slice) => {
+        fn slice_of(p: BP<'a, Self>) -> Option<BP<'a, Self>> {
+            Some(mk_slice::<Self>(p))
+        }
+    };
+    (borrow) => {
+        fn any_ref() -> Option<BP<'a, Self>> {
+            Some(mk_any_ref::<Self>())
+        }
+        fn select_ref(mask: u64) -> Option<BP<'a, Self>> {
+            Some(mk_select_ref::<Self>(mask))
+        }
+    };
+    (exact) => {
+        fn span_from_probe() -> Option<BP<'a, Self>> {
+            Some(mk_span_from::<Self>())
+        }
+    };
+}
+macro_rules! caps {
+    ([$($g:tt)*] $t:ty $(where [$($w:tt)*])? ; $($cap:ident),*) => {
+        impl<'a, $($g)*> Caps<'a> for $t $(where $($w)*)? {
+            $( cap_fns!($cap); )*
+        }
+    };
+}
+
+type SSp = chumsky::span::SimpleSpan<usize>;
+type CSp = chumsky::span::SimpleSpan<usize, u32>;
+use chumsky::input::{BoxedExactSizeStream, BoxedStream, IoInput, MappedInput, MappedSpan, Stream, WithContext};
+use crate::sources::{SimIter, SimReader};
+
+caps!([] &'a [u8]; slice, borrow, exact);
+caps!([] &'a [char]; slice, borrow, exact);
+caps!([const N: usize] &'a [u8; N]; slice, borrow, exact);
+caps!([] &'a str; slice, exact);
+caps!([] bytes::Bytes; slice, exact);
+caps!([] Stream<SimIter<u8>>;);
+caps!([] Stream<SimIter<char>>;);
+caps!([] BoxedStream<'a, u8>;);
+caps!([] BoxedExactSizeStream<'a, u8>; exact);
+caps!([] IoInput<SimReader>;);
+caps!([] WithContext<CSp, &'a [u8]>; slice, borrow, exact);
+caps!([] WithContext<CSp, &'a str>; slice, exact);
+caps!([] WithContext<CSp, Stream<SimIter<u8>>>;);
+caps!([] WithContext<CSp, IoInput<SimReader>>;);
+caps!([F: Fn(SSp) -> CSp + 'a] MappedSpan<CSp, &'a [u8], F>; slice, borrow, exact);
+caps!([F: Fn(SSp) -> CSp + 'a] MappedSpan<CSp, &'a str, F>; slice, exact);
+caps!([F: Fn(SSp) -> CSp + 'a] MappedSpan<CSp, Stream<SimIter<u8>>, F>;);
+caps!([F: Fn(SSp) -> CSp + 'a] MappedSpan<CSp, IoInput<SimReader>, F>;);
+// mapped (token, span) slice: tokens by reference and slices of the underlying pairs; span_from of a
+// mapped input runs to the end-of-input span by design, which has no index re-basing -> not probed
+caps!([F: Fn(&'a (u8, SSp)) -> (&'a u8, &'a SSp) + 'a] MappedInput<u8, SSp, &'a [(u8, SSp)], F>; slice, borrow);
+caps!([F: Fn((u8, SSp)) -> (u8, SSp) + 'a] MappedInput<u8, SSp, Stream<SimIter<(u8, SSp)>>, F>;);
+
+macro_rules! caps_arms_yes {
+    ($cx:expr, $sub:ident, $g:expr) => {
+        match $g {
+            G::Slice(a) => {
+                let a = $sub!(a);
+                I::slice_of(a).expect("harness: input kind lacks SliceInput")
+            }
+            G::AnyRef => I::any_ref().expect("harness: input kind lacks BorrowInput"),
+            G::SelectRef(v) => {
+                let mut mask = 0u64;
+                for s in v {
+                    mask |= 1 << s;
+                }
+                I::select_ref(mask).expect("harness: input kind lacks BorrowInput")
+            }
+            G::SpanFrom => I::span_from_probe().expect("harness: input kind lacks ExactSizeInput"),
+            _ => unreachable!(),
+        }
+    };
+}
+macro_rules! caps_arms_no {
+    ($cx:expr, $sub:ident, $g:expr) => {{
+        let _ = $g;
+        panic!("harness: capability node in a builder without capability support")
+    }};
+}
+
 macro_rules! define_builder {
-    ($name:ident, $handle:ident, $ibound:path, $erase:ident, $rec:ident, $value_arms:ident, $nested:ident) => {
+    ($name:ident, $handle:ident, $ibound:path, $erase:ident, $rec:ident, $value_arms:ident, $nested:ident, $caps_arms:ident) => {
         pub fn $name<'a, I>(g: &G, cx: &mut Cx<'a, $handle<'a, I>>) -> $handle<'a, I>
         where
             I: $ibound,
@@ -411,15 +607,16 @@ macro_rules! define_builder {
                 }
                 G::Rec(body) => $rec!($name, cx, &**body),
                 G::RecRef => cx.rec.last().expect("harness: RecRef outside Rec").clone(),
+                other @ (G::Slice(_) | G::AnyRef | G::SelectRef(_) | G::SpanFrom) => $caps_arms!(cx, sub, other),
                 other => $value_arms!($erase, sub, cx, other),
             }
         }
     };
 }
 
-define_builder!(build_in, BP, ValueInput<'a>, erase_boxed, rec_boxed, value_arms_yes, nested_yes);
-define_builder!(build_input_only_in, BP, Input<'a>, erase_boxed, rec_boxed, value_arms_no, nested_no);
-define_builder!(build_sync_in, SP, ValueInput<'a>, erase_sync, rec_none, value_arms_yes, nested_no);
+define_builder!(build_in, BP, Caps<'a>, erase_boxed, rec_boxed, value_arms_yes, nested_yes, caps_arms_yes);
+define_builder!(build_input_only_in, BP, Input<'a>, erase_boxed, rec_boxed, value_arms_no, nested_no, caps_arms_no);
+define_builder!(build_sync_in, SP, ValueInput<'a>, erase_sync, rec_none, value_arms_yes, nested_no, caps_arms_no);
 
 thread_local! {
     static NO_ARENA: &'static Arena = Box::leak(Box::new(Arena::default()));
@@ -427,7 +624,7 @@ thread_local! {
 
 pub fn build<'a, I>(g: &G) -> BP<'a, I>
 where
-    I: ValueInput<'a>,
+    I: Caps<'a>,
     I::Token: Tok,
     I::Span: SpanX,
 {
